@@ -127,8 +127,8 @@ def _mean_squared_error_update_input_check(
             "The `input` and `target` should have the same size, "
             f"got shapes {input.shape} and {target.shape}."
         )
-    if isinstance(sample_weight, torch.Tensor) and target.size(0) != sample_weight.size(
-        0
+    if isinstance(sample_weight, torch.Tensor) and (
+        sample_weight.ndim != 1 or target.size(0) != sample_weight.size(0)
     ):
         raise ValueError(
             "The first dimension of `input`, `target` and `sample_weight` should be the same size, "
